@@ -592,7 +592,13 @@ def run_mixfit(tr, op, program):
         if op.get('method') == 'fit_predict':
             exp = models.bayes_posterior(kind, last, obs, emb)
             p_tol = _posterior_tolerance(kind, last, obs, emb, None, 0.0, exp)
-            if not isinstance(returned, np.ndarray) or returned.shape != exp.shape \
+            if isinstance(returned, np.ndarray) and returned.shape == exp.shape \
+                    and not (np.all(np.isfinite(exp))
+                             and np.all(np.isfinite(returned))):
+                # a class lost all its mass (non-finite model): whether that
+                # may happen is C01 / C09, the posterior is undefined
+                tr.count('probe:non_finite_state_fit_not_judged_further')
+            elif not isinstance(returned, np.ndarray) or returned.shape != exp.shape \
                     or not np.max(np.abs(returned - exp)) <= p_tol:
                 tr.viol('R0', entry, 'fit_predict does not return the Bayes '
                         'posterior of the model of the last EM step',
